@@ -22,12 +22,12 @@ type Obs struct {
 	Err    bool `json:"err"`
 	NodeOK bool `json:"nodeok"` // Result.Node is a non-nil <div> element
 
-	Txt []Run `json:"txt"` // Result.Text word by word, as maximal runs of consecutive source words
+	Txt []Run  `json:"txt"` // Result.Text word by word, as maximal runs of consecutive source words
 	Htm []HRun `json:"htm"` // visible words of Result.Node outside embed placeholders (runs carry chain / table flag)
-	Vis []Run `json:"vis"` // visible words of Result.Node including embed placeholders, canonical runs
-	Vnp []Run `json:"vnp"` // visible words of Result.Node outside embed placeholders, canonical runs
-	Ph  []Run `json:"ph"`  // words inside embed placeholders
-	Hid []Run `json:"hid"` // words under hidden elements of the output
+	Vis []Run  `json:"vis"` // visible words of Result.Node including embed placeholders, canonical runs
+	Vnp []Run  `json:"vnp"` // visible words of Result.Node outside embed placeholders, canonical runs
+	Ph  []Run  `json:"ph"`  // words inside embed placeholders
+	Hid []Run  `json:"hid"` // words under hidden elements of the output
 
 	MediaKept []bool `json:"mkept"` // per Src.Media entry: is it present in Result.Node
 	NImgOut   int    `json:"nimgout"`
@@ -35,9 +35,9 @@ type Obs struct {
 	CI     []int `json:"ci"`     // ContentImages, interned URL strings
 	DomImg []int `json:"domimg"` // src / srcset candidates of img and source elements of Result.Node, document order
 
-	WC      int `json:"wc"`      // Result.WordCount
-	TxtWC   int `json:"txtwc"`   // number of words in Result.Text
-	NTitle  int `json:"ntitle"`  // len(Result.Title)
+	WC      int  `json:"wc"`      // Result.WordCount
+	TxtWC   int  `json:"txtwc"`   // number of words in Result.Text
+	NTitle  int  `json:"ntitle"`  // len(Result.Title)
 	OnlyTxt bool `json:"onlytxt"` // Result.Node has no table/figure/img/video/placeholder
 
 	// attribute / element census of Result.Node (C05); "out" = outside the
